@@ -14,7 +14,7 @@ from harness.common import VERIF, PY
 from checks.pool import run_parallel, pyenv
 
 RUN = os.path.join(VERIF, "harness", "transport_run.py")
-ITEMS = ["H", "HC", "RF", "CB", "RS", "E4L", "E5L", "E5N", "BS", "B3", "TR", "E0", "NJ", "S202", "S203"]
+ITEMS = ["H", "HC", "RF", "CB", "RS", "E4L", "E5L", "E5N", "BS", "B3", "TR", "TRC", "E0", "NJ", "S202", "S203"]
 
 
 def run(ctx):
